@@ -109,8 +109,8 @@ class Runner:
         subs = sorted([self.idx[r], self.idx[s]] for r, ss in reg._RESOURCE_SUBSCRIBERS.items() for s in ss)
         watches = sorted([self.idx[s], self.idx[r]] for s, rs in reg._SUBSCRIBER_RESOURCES.items() for r in rs)
         queues = sorted([self.idx[r], self.qid[id(q)]] for r, q in reg._SUBSCRIPTION_QUEUES.items())
-        heap = [[[self._ev(e) for e in list(q._queue)], bool(q._is_shutdown), int(q._unfinished_tasks)]
-                for q in self.heap]
+        heap = [[[self._ev(e) for e in list(q._queue)], bool(q._is_shutdown), int(q._unfinished_tasks),
+                 max(0, int(q.maxsize))] for q in self.heap]
         return {"subs": subs, "watches": watches, "queues": queues, "heap": heap}
 
     def _exc(self, e):
@@ -146,7 +146,11 @@ class Runner:
         try:
             if k == "register":
                 self.clock.now = op[2]
-                q = reg.register(R[op[1]])
+                c = op[3] if len(op) > 3 else 0
+                if c:      # the caller's own fresh bounded queue
+                    q = reg.register(R[op[1]], queue=asyncio.LifoQueue(maxsize=c))
+                else:
+                    q = reg.register(R[op[1]])
                 self._scan_queues()
                 res = ["queue", self.qid[id(q)]]
             elif k == "subscribe":
@@ -220,6 +224,10 @@ def has_cycle(edges):
     return any(reaches(edges, v, u) for (u, v) in edges)
 
 
+def is_full(qobs):
+    return qobs[3] > 0 and len(qobs[0]) >= qobs[3]
+
+
 def oracle_step(before, op, res, after):
     """(signature, description) if the property fails on this step, else None."""
     k = op[0]
@@ -252,7 +260,7 @@ def oracle_step(before, op, res, after):
         if len(after["heap"]) != len(before["heap"]):
             return ("notify creates queue", "notify_subscribers created a queue")
         for q, (b, a) in enumerate(zip(before["heap"], after["heap"])):
-            live = q in targets and not b[1]
+            live = q in targets and not b[1] and not is_full(b)   # a full bounded queue cannot take the event
             if live:
                 if a[0] != b[0] + [["R", n, t]]:
                     return ("notify: subscriber missed or duplicated",
@@ -312,6 +320,20 @@ def make_probe(kind, target):
                 q.get_nowait()
                 q.task_done()
             waiters = [asyncio.ensure_future(q.get()) for _ in range(3)]
+        elif kind == "full-getters":
+            # consumers parked in get(); then, in one synchronous stretch, events arrive until the (bounded)
+            # queue is full and the resource is deregistered: there is no room for the Kill marker
+            while not q.empty():
+                q.get_nowait()
+                q.task_done()
+            waiters = [asyncio.ensure_future(q.get()) for _ in range(2)]
+            await asyncio.sleep(0)
+            if any(w.done() for w in waiters):
+                for w in waiters:
+                    w.cancel()
+                return None
+            for i in range(q.maxsize if q.maxsize > 0 else 2):
+                q.put_nowait(reg.ResourceEvent(resource=res, event_time=float(i)))
         else:
             # everything taken so far is accounted for; only undelivered items remain unfinished
             while q._unfinished_tasks > q.qsize():
@@ -319,11 +341,12 @@ def make_probe(kind, target):
             if q.qsize() == 0:
                 q.put_nowait(reg.ResourceEvent(resource=res, event_time=0.0))
             waiters = [asyncio.ensure_future(q.join()) for _ in range(2)]
-        await asyncio.sleep(0)
-        if any(w.done() for w in waiters):
-            for w in waiters:
-                w.cancel()
-            return None                   # not actually waiting; nothing to check
+        if kind != "full-getters":
+            await asyncio.sleep(0)
+            if any(w.done() for w in waiters):
+                for w in waiters:
+                    w.cancel()
+                return None               # not actually waiting; nothing to check
         try:
             reg.deregister(res, 999.0)
         except Exception as e:  # noqa: BLE001
@@ -333,6 +356,12 @@ def make_probe(kind, target):
         for _ in range(5):
             await asyncio.sleep(0)
         stuck = [w for w in waiters if not w.done()]
+        # a consumer that comes to the old queue only now must not block either
+        late = asyncio.ensure_future(q.get())
+        for _ in range(3):
+            await asyncio.sleep(0)
+        late_stuck = not late.done()
+        waiters = waiters + [late]
         for w in waiters:
             w.cancel()
             try:
@@ -341,7 +370,10 @@ def make_probe(kind, target):
                 pass
         if stuck:
             return (f"deregister: {kind} still waiting",
-                    f"{len(stuck)} task(s) blocked in queue.{'get' if kind == 'getters' else 'join'}() were not released")
+                    f"{len(stuck)} task(s) blocked in queue.{'join' if kind == 'joiners' else 'get'}() were not released")
+        if late_stuck:
+            return (f"deregister: later get() blocks ({kind})",
+                    "a get() on the deregistered resource's old queue blocks instead of raising QueueShutDown")
         return None
     return probe
 
@@ -359,7 +391,7 @@ def c_natlist(xs):
 def c_op(op):
     k = op[0]
     if k == "register":
-        return f"(ORegister {op[1]} {op[2]})"
+        return f"(ORegister {op[1]} {op[2]} {op[3] if len(op) > 3 else 0})"
     if k == "subscribe":
         return f"(OSubscribe {op[1]} {op[2]})"
     if k == "only":
@@ -404,7 +436,7 @@ def c_edges(es):
 
 
 def c_obs(o):
-    heap = "[" + ";".join("QO [" + ";".join(c_ev(e) for e in q[0]) + "] " + ("true" if q[1] else "false") + f" {q[2]}"
+    heap = "[" + ";".join("QO [" + ";".join(c_ev(e) for e in q[0]) + "] " + ("true" if q[1] else "false") + f" {q[2]} {q[3]}"
                           for q in o["heap"]) + "]"
     return f"(SO {c_edges(o['subs'])} {c_edges(o['watches'])} {c_edges(o['queues'])} {heap})"
 
@@ -420,6 +452,7 @@ def all_ops(nres, times=(1,), nq=0, subsets=True):
     R = range(nres)
     for r in R:
         ops += [["register", r, t] for t in times]
+        ops += [["register", r, times[0], 1]]          # with the caller's own queue of capacity 1
         ops += [["notify", r, t] for t in times]
         ops += [["deregister", r, t] for t in times]
         ops += [["kill", r]]
@@ -444,6 +477,7 @@ class RandomSeq:
     def __init__(self, rng, nres, tclock):
         self.rng, self.nres, self.t = rng, nres, tclock
         self.prev = None
+        self.pending = []      # queued follow-ups (bursts of notifications, kill/deregister while full)
 
     def tick(self):
         self.t += 1
@@ -460,8 +494,14 @@ class RandomSeq:
         registered = [r for r, _ in obs["queues"]]
         x = rng.random()
         r = rng.randrange(n)
+        if self.pending:
+            op = self.pending.pop()
+            if op[0] in ("notify", "deregister"):
+                op[2] = self.tick()
+            self.prev = op
+            return op
         if x < 0.16:
-            op = ["register", r, self.tick()]
+            op = ["register", r, self.tick(), rng.choice([0, 0, 0, 1, 1, 2])]
         elif x < 0.40:
             a, b = rng.randrange(n), rng.randrange(n)
             y = rng.random()
@@ -491,6 +531,19 @@ class RandomSeq:
             if obs["subs"] and rng.random() < 0.7:
                 r = rng.choice(obs["subs"])[0]
             op = ["notify", r, self.tick()]
+            # a burst that fills bounded subscriber queues, sometimes followed by killing / deregistering
+            # such a subscriber while its queue is full
+            qof = {a: q for a, q in obs["queues"]}
+            bounded = [sb for rr, sb in obs["subs"] if rr == r and sb in qof and obs["heap"][qof[sb]][3] > 0]
+            if bounded and rng.random() < 0.6:
+                victim = rng.choice(bounded)
+                y = rng.random()
+                if y < 0.35:
+                    self.pending.append(["deregister", victim, 0])
+                elif y < 0.6:
+                    self.pending.append(["kill", victim])
+                for _ in range(rng.choice([1, 2, 2])):
+                    self.pending.append(["notify", r, 0])
         elif x < 0.81:
             if registered and rng.random() < 0.7:
                 r = rng.choice(registered)
@@ -504,7 +557,7 @@ class RandomSeq:
         else:
             nq = len(obs["heap"])
             if nq == 0:
-                op = ["register", r, self.tick()]
+                op = ["register", r, self.tick(), rng.choice([0, 1, 2])]
             else:
                 nonempty = [q for q in range(nq) if obs["heap"][q][0]]
                 q = rng.choice(nonempty) if nonempty and rng.random() < 0.7 else rng.randrange(nq)
@@ -620,9 +673,10 @@ def run(ctx: Ctx):
             break
         tr = random_trace(ctx.rng, ctx.rng.choice([3, 8, 15, 25]), 3)
         ops = [op for op, _, _ in tr]
-        spec = (ctx.rng.choice(["getters", "joiners"]), ctx.rng.randrange(3))
+        spec = (ctx.rng.choice(["getters", "joiners", "full-getters", "full-getters"]), ctx.rng.randrange(3))
         if not any(r == spec[1] for r, _ in tr[-1][2]["queues"]):
-            ops.append(["register", spec[1], 500])
+            ops.append(["register", spec[1], 500, ctx.rng.choice([0, 1, 2]) if spec[0] != "full-getters"
+                        else ctx.rng.choice([1, 2])])
         _, verdict = run_ops(ops, make_probe(*spec))
         ctx.count("probe:" + spec[0])
         ctx.cases += 1
